@@ -168,7 +168,7 @@ func zeroValue(t types.Type) Value {
 	case *types.Signature:
 		return FuncVal{}
 	case *types.Chan:
-		return OpaqueVal{Type: t, Tag: "nilchan"}
+		return PtrVal{} // a channel is a reference to its heap object (intr_chan.go); nil channel = nil reference
 	case *types.Tuple:
 		v := make([]Value, u.Len())
 		for i := range v {
